@@ -1,7 +1,7 @@
 (* C17 — form and query decoding returns the submitted fields.  Property theorems only.
    FULL statement (NOT true of the code: C17-F1; and the safe half is not proved in general yet):
      for every map m of distinct non-empty keys to values:  parse_query (build_query m) = m. *)
-From Rws Require Import Str Utf8 Num Request GenCodec Forms C17Proof.
+From Rws Require Import Str Utf8 Num Request GenCodec Forms C17Proof C17Round.
 Open Scope N_scope.
 
 Definition C17_full : Prop := forall s, decode_uri (encode_uri s) = s.
@@ -26,3 +26,9 @@ Proof. exact (conj rep_strings_roundtrip rep_map_roundtrip). Qed.
 Theorem C17_parse_query_spec : forall k v, ~ In 38 k -> ~ In 61 k -> ~ In 38 v -> ~ In 61 v -> k <> [] -> trim (k ++ [61] ++ v) <> [] ->
   parse_query (k ++ [61] ++ v) = [(decode_uri k, decode_uri v)].
 Proof. exact parse_query_single. Qed.
+(* GENERAL: every byte string without a percent sign - of any length, over all 255 other byte values, reserved and non-ASCII bytes
+   included - survives encode then decode.  (The encoder is proved character-wise, the decoder token-wise, over the regenerated tables.) *)
+Theorem C17_percent_free_round_trip : forall s, bytes_ok s -> ~ In 37 s -> decode_uri (encode_uri s) = s.
+Proof. exact percent_free_round_trip. Qed.
+Theorem C17_encoder_is_characterwise : forall s, encode_uri s = flat_map (fun c => encode_uri [c]) s.
+Proof. exact encode_charwise. Qed.
